@@ -42,6 +42,7 @@ type spec struct {
 	// lastBlock: every honest keyper is held back from the start of the eon until its messages land
 	// in the last block of the dealing phase
 	lastBlock   bool
+	joiner      int // 1+index of an honest keyper that is not in the genesis set (it joins with set 1); 0: none
 	dbFaults    int
 	faultKeyper int
 	sets        int // keyper sets known from the start (2: two key generations run at the same time)
@@ -65,7 +66,7 @@ func (s spec) String() string {
 	if s.pause >= 0 {
 		ps = fmt.Sprintf(" pause=k%d/%s", s.pause, s.pausePhase)
 	}
-	return fmt.Sprintf("%s n=%d t=%d phase=%d sched=%d skip=%d/%d extra=%d byzFirst=%t restart=%d/20 reload=%b sets=%d%s %s", s.family, s.n, s.t, s.phaseLen, s.sched, s.skip, s.maxSkip, s.extra, s.byzFirst, s.restart, s.reloadMask, s.sets, ps, strings.Join(bs, " "))
+	return fmt.Sprintf("%s n=%d t=%d phase=%d sched=%d skip=%d/%d extra=%d byzFirst=%t restart=%d/20 reload=%b sets=%d joiner=%d%s %s", s.family, s.n, s.t, s.phaseLen, s.sched, s.skip, s.maxSkip, s.extra, s.byzFirst, s.restart, s.reloadMask, s.sets, s.joiner, ps, strings.Join(bs, " "))
 }
 
 var specs []spec
@@ -193,7 +194,11 @@ func prepare(env *vlib.Env) (int, error) {
 		if t > n {
 			t = n
 		}
-		specs = append(specs, spec{family: "honest", n: n, t: t, phaseLen: int64(4 + rng.Intn(5)), sched: rng.Uint64(), skip: rng.Intn(5), maxSkip: 1 + rng.Intn(2), extra: rng.Intn(4), restart: rng.Intn(3)})
+		sp := spec{family: "honest", n: n, t: t, phaseLen: int64(4 + rng.Intn(5)), sched: rng.Uint64(), skip: rng.Intn(5), maxSkip: 1 + rng.Intn(2), extra: rng.Intn(4), restart: rng.Intn(3)}
+		if t < n && i%3 == 0 {
+			sp.joiner = 1 + rng.Intn(n) // the genesis set then has n-1 >= t keypers
+		}
+		specs = append(specs, sp)
 	}
 	// reload-diff: some honest keypers rebuild their state from the database before every step, the
 	// others never do; whatever the stored form loses or alters shows up as a disagreement
@@ -297,6 +302,10 @@ func runCase(env *vlib.Env, idx int, rep *vlib.Reporter) {
 	nsets := 1
 	if sp.sets > 1 {
 		nsets = sp.sets
+	}
+	dkgsim.GenesisExcludes = -1
+	if sp.joiner > 0 {
+		dkgsim.GenesisExcludes = sp.joiner - 1
 	}
 	if sp.dbFaults > 0 {
 		dkgsim.RedialKeyper = sp.faultKeyper
